@@ -239,7 +239,7 @@ def classify(z, reprs, used, rep_hour):
 def run_shard(ctx):
     @given(cases())
     def test(case):
-        check_case(ctx, case)
+        runner.guarded(ctx, check_case, case)
 
     runner.drive(ctx, test, ctx.n(960, 16000))
 
@@ -251,7 +251,7 @@ def replay(ctx, case):
         only = (case["tz"], case["assign"])
         case = case["case"]
     try:
-        check_case(ctx, case, record=False, only=only)
+        runner.guarded(ctx, check_case, case, record=False, only=only)
     except runner.Violation as v:
         return v.msg
     return None
